@@ -99,6 +99,15 @@ def script(r, tiny=False, ncomp=None, split=None, alldefault=False):
           "tpc computeall %d" % (r.below(2) if split is None else split), "tpc list", "tpc evalall 0 0 0"]
     for q in (qs or [[i, j, j, i] for (i, j) in cand[:3]]):
         s.append("tpc get %d %d %d %d 0 1 0" % tuple(q))
+    if r.chance(1, 2) and len(cand) >= 2:
+        # a second bulk computation in the same process with ANOTHER number of components (another colouring of the ranks)
+        n2 = (len(qs) % 3) + 1 if qs else 2
+        r.shuffle(cand)
+        qs2 = [[i, j, j, i] for (i, j) in cand[:n2]]
+        s += ["tpc prepareall %d %s" % (len(qs2), " ".join("%d %d %d %d" % tuple(q) for q in qs2)),
+              "tpc computeall %d" % (1 if split is None else split), "tpc list", "tpc evalall 0 1 0"]
+        for q in qs2:
+            s.append("tpc get %d %d %d %d 1 0 0" % tuple(q))
     return s
 
 
